@@ -292,6 +292,34 @@ class Gen(object):
         bits_types = [t for t in earlier if t.kind == "bits"]
         any_dynamic = False
         local_only = set()  # abbreviations: invisible outside this structure
+        force_union = False
+        if self.p.get("union_bias"):
+            if leaf:
+                # a leaf with a small tag that parents can switch on
+                tname = self.fname(used, "tag")
+                if self.module.enums and r.random() < 0.5:
+                    e = r.choice([x for x in self.module.enums if x.need_bits <= 8 <= x.max_bits()] or [None])
+                else:
+                    e = None
+                if e is not None:
+                    fields.append(Field(tname, "phys", num(0), num(1), Type("enum", ref=e)))
+                    srcs.append(Src((tname,), 0, 0, "enum", e))
+                else:
+                    fields.append(Field(tname, "phys", num(0), num(1), Type("uint")))
+                    srcs.append(Src((tname,), 0, 255))
+                off = 1
+            else:
+                cands = [t for t in fixed_structs if any(x.kind == "enum" or (x.kind == "int" and 0 <= x.lo and x.hi <= 255)
+                                                         for x in getattr(t, "srcs", []))]
+                if cands:
+                    st = r.choice(cands)
+                    for nm in ("head", "tail"):
+                        n2 = self.fname(used, nm)
+                        fields.append(Field(n2, "phys", num(off), num(st.static_bytes), Type("struct", ref=st)))
+                        for x in st.srcs[:4]:
+                            srcs.append(Src((n2,) + x.path, x.lo, x.hi, x.kind, x.enum))
+                        off += st.static_bytes
+                    force_union = True
         for _i in range(nfields):
             k = r.random()
             cond = None
@@ -352,8 +380,6 @@ class Gen(object):
                     f.abbrev = self.fname(used, name[:1] + r.choice("abcxyz"))
                 if self.p["allow_requires"] and t.kind in ("uint", "int") and r.random() < 0.1:
                     f.requires = op(r.choice(["<", "<=", ">=", "!="]), ref("this"), num(r.choice([0, 1, 10, 100, 200])))
-                if self.p["text"] and (cond is not None or nbytes > 2) and r.random() < 0.4:
-                    f.text_output = r.choice(["Skip", "Emit"])
                 fields.append(f)
                 if cond is None:
                     nm = name
@@ -368,6 +394,11 @@ class Gen(object):
                         srcs.append(Src((nm,), 0, 99))
                     elif t.kind == "enum":
                         srcs.append(Src((nm,), 0, 0, "enum", t.ref))
+                    else:
+                        if self.p["text"] and r.random() < 0.5:
+                            f.text_output = r.choice(["Skip", "Emit"] if f.requires is None else ["Emit"])  # nothing depends on it
+                elif self.p["text"] and r.random() < 0.4:
+                    f.text_output = r.choice(["Skip", "Emit"] if f.requires is None else ["Emit"])  # never a source
                 advance(nbytes, num(nbytes))
             elif k < 0.46 and self.p["allow_bits"]:
                 # anonymous bits block
@@ -403,6 +434,14 @@ class Gen(object):
                     for x in getattr(st, "srcs", [])[:4]:
                         srcs.append(Src((name,) + x.path, x.lo, x.hi, x.kind, x.enum))
                 advance(st.static_bytes, num(st.static_bytes))
+                if cond is None and off is not None and r.random() < 0.4:
+                    # a second field of the same type right after (two instances of one sub-structure)
+                    name2 = self.fname(used, name.split("_")[0] + "b")
+                    f2 = Field(name2, "phys", num(off), num(st.static_bytes), Type("struct", ref=st), None)
+                    fields.append(f2)
+                    for x in getattr(st, "srcs", [])[:4]:
+                        srcs.append(Src((name2,) + x.path, x.lo, x.hi, x.kind, x.enum))
+                    off += st.static_bytes
             elif k < 0.72 and param_structs and self.p["allow_nested"] and not leaf and self.p["allow_dynamic"]:
                 st = r.choice(param_structs)
                 args = []
@@ -442,6 +481,8 @@ class Gen(object):
                 if ek < 0.7 or not fixed_structs:
                     ebytes = r.choice([1, 1, 1, 2, 2, 4, 8])
                     et = Type(r.choice(["uint", "uint", "int"]), bits=ebytes * 8)
+                    if self.p["allow_float"] and ebytes in (4, 8) and r.random() < 0.5:
+                        et = Type("float", bits=ebytes * 8)
                 else:
                     st = r.choice(fixed_structs)
                     ebytes = st.static_bytes
@@ -506,6 +547,34 @@ class Gen(object):
                     if cond is None and -70000 <= lo and hi <= 70000:
                         srcs.append(Src((name,), lo, hi))
                 fields.append(f)
+        if self.p["allow_cond"] and off is not None and r.random() < (0.95 if force_union else 0.4):
+            # tagged-union block: several fields guarded by `discriminant == constant`, sharing
+            # discriminants (incl. the same member of two sub-structure instances) and case values
+            discs = [x for x in srcs if (x.kind == "enum") or (x.kind == "int" and 0 <= x.lo and x.hi <= 255)]
+            if discs:
+                chosen = r.sample(discs, min(len(discs), r.randint(1, 3)))
+                # prefer pairs that are the same member of two different fields
+                by_tail = {}
+                for x in discs:
+                    if len(x.path) > 1:
+                        by_tail.setdefault(x.path[1:], []).append(x)
+                twins = [v for v in by_tail.values() if len(v) > 1]
+                if twins and r.random() < (0.95 if force_union else 0.7):
+                    chosen = r.choice(twins)[:2] + chosen[:1]
+                base_off = off
+                for _j in range(r.randint(2, 5)):
+                    x = r.choice(chosen)
+                    if x.kind == "enum":
+                        c = op("==", ref(*x.path), ("enum", x.enum.name, r.choice(x.enum.values)[0]))
+                    else:
+                        c = op("==", ref(*x.path), num(r.choice([0, 1, 2, 3])))
+                    nbytes = r.choice([1, 1, 2, 4])
+                    uf = Field(self.fname(used, "alt"), "phys", num(base_off if r.random() < 0.6 else off), num(nbytes),
+                               Type(r.choice(["uint", "uint", "int", "bcd"])), c)
+                    if self.p["allow_requires"] and uf.type.kind in ("uint", "int") and r.random() < 0.5:
+                        uf.requires = op(r.choice(["<", "<=", ">=", "!="]), ref("this"), num(r.choice([0, 1, 10, 100, 200])))
+                    fields.append(uf)
+                    off = max(off, uf.start[1] + nbytes) if r.random() < 0.5 else off
         if not any(f.kind != "virtual" for f in fields) and r.random() < 0.8:
             fields.insert(0, Field(self.fname(used), "phys", num(0), num(1), Type("uint")))
             srcs.append(Src((fields[0].name,), 0, 255))
